@@ -134,7 +134,8 @@ fn run_search(t: &[&str]) -> Option<String> {
     )
 }
 
-/// D3: a payload of n bytes received from the peer is reported through on_payload_delivered.
+/// Regression of D3: a payload of n bytes received from the peer is reported through
+/// on_payload_delivered right after `new`; prints max_ss before, mss and max_ss after.
 fn run_d3(t: &[&str]) -> Option<String> {
     if t.len() != 3 {
         return None;
